@@ -6,12 +6,13 @@ names=sys.argv[2:]; to=int(sys.argv[1])
 root=scratch.make_copy('t')
 try:
     kb=kani_engine.KaniBuild(root+'/repo', check_main.load_findings()); kb.build()
-    want={kb.units[n].fq:('z3' if kb.units[n].klass=='M' else 'cadical') for n in names}
+    want={kb.units[n].fq:{'M':'z3','S':'cadical-uf'}.get(kb.units[n].klass,'cadical') for n in names}
     meta=cbmc_driver.codegen(kb.dst, list(want), root+'/log')
     os.makedirs(root+'/goto', exist_ok=True)
     for fq in want:
         t=time.time()
         r=cbmc_driver.run_one(kb.dst, meta[fq], root+'/goto', want[fq], to)
         print(fq.split('::')[-1], r.status, round(time.time()-t,1), r.checks_total, r.failed_checks[:3], flush=True)
+        if r.status=='error': print(r.raw[-1500:])
 finally:
     scratch.remove_copy(root)
